@@ -12,6 +12,7 @@ import WalrusVerif.Model.Header
 import WalrusVerif.Model.Durable
 import WalrusVerif.Model.Fnv
 import WalrusVerif.Model.LogStore
+import WalrusVerif.Model.LogStoreFault
 import WalrusVerif.Model.Plane
 import WalrusVerif.Model.Adapter
 /-!
@@ -93,6 +94,9 @@ structure DState where
   /-- the bare WAL wrapper (C21): records are the payload names -/
   wwal : LogStore.Wal String := {}
   wopen : Bool := false
+  /-- armed write failures of the Raft log / the peer log: the countdown of record writes -/
+  lsFault : Option Nat := none
+  lsPeerFault : Option Nat := none
   /-- the data plane (C22, C23) -/
   world : Plane.World := {}
   /-- the Raft state-machine adapter (C19); `none` = no adapter in this process -/
@@ -441,7 +445,17 @@ end LS
 
 def handleLS (st : DState) (toks : List String) : Option (DState × String) :=
   match toks with
-  | ["ls", "reset"] => some ({ st with node := {}, wwal := {}, wopen := false }, "ok")
+  | ["ls", "reset"] => some ({ st with node := {}, wwal := {}, wopen := false, lsFault := none, lsPeerFault := none }, "ok")
+  | ["ls", "fault", "peer", k] =>
+    match st.node.live, k.toNat? with
+    | some _, some kk => some ({ st with lsPeerFault := some kk }, "ok")
+    | none, some _ => some (st, "err:closed")
+    | _, none => some (st, "bad-op")
+  | ["ls", "fault", k] =>
+    match st.node.live, k.toNat? with
+    | some _, some kk => some ({ st with lsFault := some kk }, "ok")
+    | none, some _ => some (st, "err:closed")
+    | _, none => some (st, "bad-op")
   | ["ls", "wopen"] => some ({ st with wopen := true }, "ok")
   | ["ls", "wclose"] => some ({ st with wopen := false }, "ok")
   | ["ls", "wappend", x] =>
@@ -455,9 +469,30 @@ def handleLS (st : DState) (toks : List String) : Option (DState × String) :=
     match LS.parseOp rest with
     | some op =>
       let q := if LogStore.quirkReadAllConsumes st.node op then "#quirk readAllConsumes\n" else ""
-      let (n, o) := LogStore.step st.node op
       let wopen := match op with | .restart => false | .kill => false | _ => st.wopen
-      some ({ st with node := n, wopen := wopen }, q ++ LS.fmtOut o)
+      -- the armed failures belong to the process: a restart / kill / reopen disarms them
+      let st := match op with
+        | .restart => { st with lsFault := none, lsPeerFault := none }
+        | .kill => { st with lsFault := none, lsPeerFault := none }
+        | .open_ => { st with lsFault := none, lsPeerFault := none }
+        | _ => st
+      match op, st.node.live, st.lsPeerFault with
+      | .peer id port, some lv, some k =>
+        -- node.rs:150-157 as restated in the harness: the record is written only when the address differs
+        if lv.peers.get? id = some port then some (st, "ok")
+        else if k = 0 then some ({ st with lsPeerFault := none }, "err")
+        else
+          let (n, o) := LogStore.step st.node op
+          some ({ st with node := n, lsPeerFault := some (k - 1) }, LS.fmtOut o)
+      | _, _, _ =>
+        match st.lsFault with
+        | some k =>
+          let (n, o, rest') := LogStore.stepFault st.node op k
+          some ({ st with node := n, wopen := wopen, lsFault := rest' },
+            q ++ (match o with | some o => LS.fmtOut o | none => "err"))
+        | none =>
+          let (n, o) := LogStore.step st.node op
+          some ({ st with node := n, wopen := wopen }, q ++ LS.fmtOut o)
     | none => some (st, "bad-op")
   | _ => none
 
